@@ -534,6 +534,44 @@ pub fn run_child(ctx: &Ctx) -> Report {
     st = st.merge(part);
     base += n_f;
 
+    // ---- (f') server clocks at the edges of what the time types can represent x request dates at the edges of
+    //      what the grammar can express (UTC years -1, 0, 9999, 10000 via offsets), totality only
+    {
+        let min = chrono::DateTime::<chrono::Utc>::MIN_UTC.timestamp();
+        let max = chrono::DateTime::<chrono::Utc>::MAX_UTC.timestamp();
+        let mut clocks: Vec<(i64, u32)> = Vec::new();
+        for base_s in [min, max, 0i64, -62_167_219_200, -62_135_596_800, 253_402_300_799, 253_402_300_800, i32::MAX as i64, i32::MIN as i64, u32::MAX as i64] {
+            for d in [-901i64, -900, -899, -1, 0, 1, 899, 900, 901] {
+                let t = base_s.saturating_add(d);
+                if t >= min && t <= max {
+                    clocks.push((t, 0));
+                    clocks.push((t, 999_999_999));
+                }
+            }
+        }
+        let dates = [
+            "20150830T123600Z", "00010101T000000Z", "99991231T235959Z", "00000101T000000Z", "00000101T000000+0100", "00000101T000000+1959",
+            "99991231T235959-0100", "99991231T235959-1959", "00000101T000000-1959", "99991231T235959+1959", "99991231T235959.999999999Z",
+        ];
+        let n_c = (clocks.len() * dates.len() * 2) as u64;
+        let b = base;
+        let part = par_sweep(n_c, |i, st| {
+            let mut x = i as usize;
+            let carrier = if x % 2 == 0 { Carrier::Header } else { Carrier::Query };
+            x /= 2;
+            let d = dates[x % dates.len()];
+            x /= dates.len();
+            let (secs, nanos) = clocks[x];
+            let mut plan = e2e::base_plan(carrier);
+            plan.date_text = d.to_string();
+            let built = build(&plan);
+            let cfg = Cfg::basic(refmodel::Instant::new(secs, nanos));
+            total(b + i as u64, "server-clock-extremes", WireReq::from_wire(&built.wire), &cfg, &std_prov, st);
+        });
+        st = st.merge(part);
+        base += n_c;
+    }
+
     // ---- (g) builders, (h) error conversions, (i) derivation extremes
     {
         use scratchstack_aws_signature::auth::SigV4AuthenticatorResponse;
@@ -682,7 +720,7 @@ pub fn run_child(ctx: &Ctx) -> Report {
     Report {
         stats: st,
         rule: format!(
-            "every case runs under catch_unwind inside a child process (abnormal termination = violation), with overflow checks and debug assertions on, alternately with log formatting on, against a strict key provider (panics when called without readiness; not ready at once / answer pending for a share of the cases): (a) the C13 defect product on both carriers x {{default,S3,fold}} x 3 requirement sets (incl. non-ASCII and empty names); (b) every printable ASCII byte substituted and inserted at every position of 5 URI templates, every two-character escape %c1c2 over 94^2 in path, query value and query name, 40 special URIs (asterisk-, authority-, absolute-form, truncated escapes, 40-60 kB paths / queries) x 2 carriers x 3 options; (b') 45 request targets of every form (origin, absolute, authority incl. bare host and IPv6, asterisk, empty, fragment, scheme without path) x 6 form bodies x 3 content types x {{default,S3,fold,S3+fold}} x carrier, so that the target is rebuilt under form folding; (c) every byte HeaderValue admits (tab, 0x20-0x7E, 0x80-0xFF) substituted and inserted at every{} position of Authorization / X-Amz-Date / Date / Content-Type / token values; (c') every empty, one-byte and two-byte value of a Content-Type parameter (charset in two spellings, boundary, a trailing parameter; form and JSON types) and of the Credential / SignedHeaders / Signature fields; (d) bodies of {} lengths (around 21845, 32768, 65535, up to 200000) x 8 fills (expanding bytes, pairs, UTF-8, separators, escapes) x 11 content types x fold x carrier; all 256 one-byte and every {}th two-byte body as a UTF-8 form; {} charset labels x all one-byte, every {}th two-byte and 4 special bodies; (e) 9 capacities x secret lengths 0..100 x 4 fills; (f) every C16 timestamp string on both carriers and through the unstable API; (g) every subset of set fields of the three builders; (h) every SignatureError shape x 4 messages through Display/Debug/source/code/status/From<Box>; (i) derivation with empty / non-ASCII / 10 kB scopes and NaiveDate::MIN/MAX/year 0/-1/10000; canonicalisation helpers on degenerate and 1 MiB inputs. Oracle: a value or an error, never a panic, abort, hang or non-SignatureError. states = (sweep, outcome class)",
+            "every case runs under catch_unwind inside a child process (abnormal termination = violation), with overflow checks and debug assertions on, alternately with log formatting on, against a strict key provider (panics when called without readiness; not ready at once / answer pending for a share of the cases): (a) the C13 defect product on both carriers x {{default,S3,fold}} x 3 requirement sets (incl. non-ASCII and empty names); (b) every printable ASCII byte substituted and inserted at every position of 5 URI templates, every two-character escape %c1c2 over 94^2 in path, query value and query name, 40 special URIs (asterisk-, authority-, absolute-form, truncated escapes, 40-60 kB paths / queries) x 2 carriers x 3 options; (b') 45 request targets of every form (origin, absolute, authority incl. bare host and IPv6, asterisk, empty, fragment, scheme without path) x 6 form bodies x 3 content types x {{default,S3,fold,S3+fold}} x carrier, so that the target is rebuilt under form folding; (c) every byte HeaderValue admits (tab, 0x20-0x7E, 0x80-0xFF) substituted and inserted at every{} position of Authorization / X-Amz-Date / Date / Content-Type / token values; (c') every empty, one-byte and two-byte value of a Content-Type parameter (charset in two spellings, boundary, a trailing parameter; form and JSON types) and of the Credential / SignedHeaders / Signature fields; (d) bodies of {} lengths (around 21845, 32768, 65535, up to 200000) x 8 fills (expanding bytes, pairs, UTF-8, separators, escapes) x 11 content types x fold x carrier; all 256 one-byte and every {}th two-byte body as a UTF-8 form; {} charset labels x all one-byte, every {}th two-byte and 4 special bodies; (e) 9 capacities x secret lengths 0..100 x 4 fills; (f) every C16 timestamp string on both carriers and through the unstable API; (f') server clocks within 901 s of the smallest and largest DateTime<Utc>, the epoch, years 0 / 1 / 9999 / 10000 and the 32-bit limits x 11 request dates whose UTC year is -1, 0, 9999 or 10000; (g) every subset of set fields of the three builders; (h) every SignatureError shape x 4 messages through Display/Debug/source/code/status/From<Box>; (i) derivation with empty / non-ASCII / 10 kB scopes and NaiveDate::MIN/MAX/year 0/-1/10000; canonicalisation helpers on degenerate and 1 MiB inputs. Oracle: a value or an error, never a panic, abort, hang or non-SignatureError. states = (sweep, outcome class)",
             if thorough { "" } else { " (every 3rd for Authorization)" }, lens.len(), two_stride, LABELS.len(), label_stride
         ),
         bounds: json!({"cases": base}),
